@@ -1,67 +1,369 @@
 import Model.Retrieve
+import Proofs.RetrieveAdmit
+import Proofs.RetrieveEnd
 
 /-! # C03 — only material signed by the genesis proposer's key is ever accepted
-(first theorems on the DA admission path) -/
+
+Admission of DA blobs (`Retrieve.classify` = `handlePotentialHeader` / `handlePotentialData` with
+`isUsingExpectedSingleSequencer`, `SignedHeader.ValidateBasic`, `isValidSignedData`) and of P2P headers
+(`Retrieve.p2pAdmit` = the test `HeaderStoreRetrieveLoop` applies), on BYTES decoded with the wire model, the
+third-party crypto being per-item oracle answers (`Oracle`: does the key THE ITEM CARRIES parse / verify the
+signature).  These are the definitions the driver executes and the differential check compares with the real
+handlers.
+
+The full statements ("accepted ⇒ signed with the key of the proposer named in genesis") are **false** of the
+current code: the node knows the proposer's ADDRESS only, compares it with the address the item CLAIMS, and
+verifies the signature under the key the item CARRIES; nothing relates the carried key to the address
+(`types.KeyAddress` is never consulted on the verifying side).  They are kept as `def … : Prop`, refuted on
+kernel-checked witnesses built with the wire encoders, and proved under the explicit binding hypothesis a
+repair has to establish.  What does hold at full strength — (a) bad signatures, (b) foreign proposer address,
+(c) malformed signed data, (d) unaccepted material changes nothing — is proved without hypotheses. -/
 namespace Spec.C03
 open Wire Chain Retrieve
+
+/-! ## first theorems (kept): what admission guarantees today -/
+
+theorem classifyData_not_header (o : Oracle) (proposer bs : Bytes) (sh : SignedHeader) :
+    classifyData o proposer bs ≠ .hdrAccepted sh := classifyData_not_hdrAccepted o proposer bs sh
 
 /-- **What admission of a DA header guarantees today** (`_partial`): an accepted header names the genesis
 proposer's address, carries a signer with that same address, and its signature verifies **under the key the blob
 itself carries**.  Nothing relates that key to the address. -/
-theorem classifyData_not_header (o : Oracle) (proposer bs : Bytes) (sh : SignedHeader) :
-    classifyData o proposer bs ≠ .hdrAccepted sh := by
-  unfold classifyData
-  split
-  · simp
-  · split
-    · simp
-    · split
-      · simp
-      · split <;> simp
-
 theorem admit_selfconsistent_partial (o : Oracle) (proposer bs : Bytes) (sh : SignedHeader)
     (h : classify o proposer bs = .hdrAccepted sh) :
     sh.header.proposerAddress = proposer ∧ sh.header.proposerAddress = sh.signer.address ∧
     sh.signer.pubKey ≠ [] ∧ o.hdrSigOk = true := by
-  unfold classify at h
-  split at h
-  · simp at h
-  · split at h
-    · exact absurd h (classifyData_not_header _ _ _ _)
-    · simp at h
-    · rename_i x hst
-      split at h
-      · exact absurd h (classifyData_not_header _ _ _ _)
-      · rename_i hvb
-        split at h
-        · simp at h
-        · rename_i hp
-          have hx : x = sh := by simpa using h
-          subst hx
-          simp [validateBasicWire] at hvb
-          simp at hp
-          exact ⟨hp, hvb.1.1.2, hvb.1.2, hvb.2⟩
+  obtain ⟨_, hvb, hp⟩ := (classify_hdrAccepted_iff o proposer bs sh).1 h
+  simp [validateBasicWire] at hvb
+  exact ⟨hp, hvb.1.1.2, hvb.1.2, hvb.2⟩
 
 /-- the same for signed data: accepted data names the proposer's address and verifies under the carried key -/
 theorem admit_data_selfconsistent_partial (o : Oracle) (proposer bs : Bytes) (sd : SignedData)
     (h : classifyData o proposer bs = .dataAccepted sd) :
     sd.signer.address = proposer ∧ sd.signer.pubKey ≠ [] ∧ o.dataSigOk = true ∧ sd.data.txs ≠ [] := by
-  unfold classifyData at h
-  split at h
-  · simp at h
-  · rename_i x hx
-    split at h
-    · simp at h
-    · rename_i hne
-      split at h
-      · simp at h
-      · split at h
-        · rename_i hv
-          have : x = sd := by simpa using h
-          subst this
-          simp [validSignedData] at hv
-          refine ⟨hv.1.1, hv.1.2, hv.2, ?_⟩
-          intro he; simp [he] at hne
-        · simp at h
+  obtain ⟨_, ht, _, hv⟩ := (classifyData_accepted_iff o proposer bs sd).1 h
+  simp [validSignedData] at hv
+  exact ⟨hv.1.1, hv.1.2, hv.2, ht⟩
+
+/-- the same for the P2P path: an admitted header names the proposer's address, its signer claims that address,
+it carries a signature and a key, and the signature verifies under the carried key -/
+theorem admit_p2p_selfconsistent_partial (o : Oracle) (proposer : Bytes) (sh : SignedHeader)
+    (h : p2pAdmit o proposer sh = true) :
+    sh.header.proposerAddress = proposer ∧ sh.header.proposerAddress = sh.signer.address ∧
+    sh.signature ≠ [] ∧ sh.signer.pubKey ≠ [] ∧ o.hdrSigOk = true := by
+  simp [p2pAdmit, validateBasicWire] at h
+  exact ⟨h.1, h.2.1.1.2, h.2.1.1.1.2, h.2.1.2, h.2.2⟩
+
+/-- signed data reaching sync through the full DA classification went through the data test -/
+theorem admit_data_via_classify (o : Oracle) (proposer bs : Bytes) (sd : SignedData)
+    (h : classify o proposer bs = .dataAccepted sd) : classifyData o proposer bs = .dataAccepted sd :=
+  ((classify_dataAccepted_iff o proposer bs sd).1 h).2.2.2
+
+/-! ## the full statements, in the property's vocabulary -/
+
+/-- "signed with the private key of the proposer named in genesis": the item carries the proposer's public key
+and its signature verifies under the key it carries (`o.hdrSigOk` is the real ed25519 verification, run by the
+harness on the carried key; unforgeability is the explicit cryptographic assumption) -/
+def SignedByProposer (o : Oracle) (proposerKey : Bytes) (sh : SignedHeader) : Prop :=
+  sh.signer.pubKey = proposerKey ∧ o.hdrSigOk = true
+
+def DataSignedByProposer (o : Oracle) (proposerKey : Bytes) (sd : SignedData) : Prop :=
+  sd.signer.pubKey = proposerKey ∧ o.dataSigOk = true
+
+/-- the full statements are relative to the address derivation `addrOf` (genesis names
+`addrOf proposerKey`); `keyAddress` models `types.KeyAddress` (SHA-256 over the key bytes) -/
+def keyAddress (k : Bytes) : Bytes := sha256 k
+
+/-- every header accepted from the DA layer is signed by the genesis proposer -/
+def C03_header_full (addrOf : Bytes → Bytes) : Prop :=
+  ∀ (o : Oracle) (proposerKey bs : Bytes) (sh : SignedHeader),
+    classify o (addrOf proposerKey) bs = .hdrAccepted sh → SignedByProposer o proposerKey sh
+
+/-- every signed-data blob accepted from the DA layer is signed by the genesis proposer -/
+def C03_data_full (addrOf : Bytes → Bytes) : Prop :=
+  ∀ (o : Oracle) (proposerKey bs : Bytes) (sd : SignedData),
+    classify o (addrOf proposerKey) bs = .dataAccepted sd → DataSignedByProposer o proposerKey sd
+
+/-- every header admitted from the P2P header store is signed by the genesis proposer -/
+def C03_p2p_full (addrOf : Bytes → Bytes) : Prop :=
+  ∀ (o : Oracle) (proposerKey : Bytes) (sh : SignedHeader),
+    p2pAdmit o (addrOf proposerKey) sh = true → SignedByProposer o proposerKey sh
+
+/-! ### witnesses: a self-consistent forgery under the proposer's address with a foreign key -/
+
+/-- the genesis proposer's (marshalled ed25519) public key, and a third party's -/
+def proposerKey : Bytes := [8, 1, 18, 32] ++ List.replicate 32 1
+def foreignKey : Bytes := [8, 1, 18, 32] ++ List.replicate 32 2
+/-- the address genesis names -/
+def proposer : Bytes := keyAddress proposerKey
+/-- the third party's key parses and verifies the third party's own signatures -/
+def forgeO : Oracle := { keyOk := true, hdrSigOk := true, dataSigOk := true }
+/-- a header naming the proposer's address, signed by the third party with ITS key, the signer claiming the
+proposer's address -/
+def forgedHeader : SignedHeader :=
+  { header := { height := 1, time := 5, proposerAddress := proposer, chainId := "c" }, signature := [5, 5],
+    signer := { address := proposer, pubKey := foreignKey } }
+def forgedData : SignedData :=
+  { data := { metadata := some { chainId := "c", height := 1, time := 5 }, txs := [[0xde, 0xad]] },
+    signature := [6, 6], signer := { address := proposer, pubKey := foreignKey } }
+
+/-- kernel-evaluated: the forged header blob is accepted by the DA path -/
+theorem forged_header_accepted : classify forgeO proposer forgedHeader.encode = .hdrAccepted forgedHeader := by
+  decide +kernel
+/-- kernel-evaluated: the forged signed-data blob is accepted by the DA path -/
+theorem forged_data_accepted : classify forgeO proposer forgedData.encode = .dataAccepted forgedData := by
+  decide +kernel
+/-- kernel-evaluated: the forged header is admitted by the P2P path -/
+theorem forged_header_p2p_admitted : p2pAdmit forgeO proposer forgedHeader = true := by decide +kernel
+/-- and it ends up marked DA-included and queued for sync -/
+theorem forged_header_marked_and_queued :
+    (handleBlobs proposer {} 7 [(forgedHeader.encode, forgeO)] []).1.hMarks = [(forgedHeader.header.hash, 7)] ∧
+    (handleBlobs proposer {} 7 [(forgedHeader.encode, forgeO)] []).2.length = 1 := by decide +kernel
+
+theorem C03_header_full_fails : ¬ C03_header_full keyAddress := by
+  intro h
+  have := (h forgeO proposerKey forgedHeader.encode forgedHeader forged_header_accepted).1
+  revert this; decide
+
+theorem C03_data_full_fails : ¬ C03_data_full keyAddress := by
+  intro h
+  have := (h forgeO proposerKey forgedData.encode forgedData forged_data_accepted).1
+  revert this; decide
+
+theorem C03_p2p_full_fails : ¬ C03_p2p_full keyAddress := by
+  intro h
+  have := (h forgeO proposerKey forgedHeader forged_header_p2p_admitted).1
+  revert this; decide
+
+/-- **The forgery is generic**: for EVERY address derivation and every proposer key whose address is non-empty
+(and of a size a Go slice can have), and every other non-empty key `k'`, the header naming the proposer's
+address with signer `{address := proposer's, pubKey := k'}` is accepted — on the DA path from its encoded
+bytes, and on the P2P path.  So the full statements fail whatever `addrOf` is: nothing in the admission test
+depends on it. -/
+theorem forgery_accepted_for_any_derivation (addrOf : Bytes → Bytes) (k k' sig : Bytes) (hd : Header)
+    (ha : addrOf k ≠ []) (hk' : k' ≠ []) (hsig : sig ≠ []) (hp : hd.proposerAddress = addrOf k)
+    (hw : ({ header := hd, signature := sig, signer := { address := addrOf k, pubKey := k' } } : SignedHeader).WF) :
+    classify { keyOk := true, hdrSigOk := true, dataSigOk := false } (addrOf k)
+        ({ header := hd, signature := sig, signer := { address := addrOf k, pubKey := k' } } : SignedHeader).encode =
+      .hdrAccepted { header := hd, signature := sig, signer := { address := addrOf k, pubKey := k' } } ∧
+    p2pAdmit { keyOk := true, hdrSigOk := true, dataSigOk := false } (addrOf k)
+      { header := hd, signature := sig, signer := { address := addrOf k, pubKey := k' } } = true := by
+  have hv : validateBasicWire { keyOk := true, hdrSigOk := true, dataSigOk := false }
+      { header := hd, signature := sig, signer := { address := addrOf k, pubKey := k' } } = true := by
+    simp [validateBasicWire, hp, ha, hk', hsig]
+  exact ⟨classify_encode_header _ _ _ hw rfl hv hp, by simp [p2pAdmit, hv, hp]⟩
+
+theorem C03_header_full_fails_any (addrOf : Bytes → Bytes) (k : Bytes) (ha : addrOf k ≠ [])
+    (hl : (addrOf k).length < 2 ^ 32) : ¬ C03_header_full addrOf := by
+  intro h
+  -- a short non-empty key different from `k`
+  obtain ⟨k', hk'ne, hk'k, hk'len⟩ : ∃ k' : Bytes, k' ≠ [] ∧ k' ≠ k ∧ k'.length = 1 := by
+    by_cases hk : k = [1]
+    · exact ⟨[2], by simp, by rw [hk]; decide, rfl⟩
+    · exact ⟨[1], by simp, fun he => hk he.symm, rfl⟩
+  have hw : ({ header := { proposerAddress := addrOf k }, signature := [1],
+               signer := { address := addrOf k, pubKey := k' } } : SignedHeader).WF := by
+    apply SignedHeader.wf_of_sizes <;> simp [Version.WF, Header.payload, utf8] <;> omega
+  exact hk'k (h _ k _ _ (forgery_accepted_for_any_derivation addrOf k k' [1] { proposerAddress := addrOf k }
+    ha hk'ne (by simp) rfl hw).1).1
+
+theorem C03_p2p_full_fails_any (addrOf : Bytes → Bytes) (k : Bytes) (ha : addrOf k ≠ []) : ¬ C03_p2p_full addrOf := by
+  intro h
+  obtain ⟨k', hk'ne, hk'k⟩ : ∃ k' : Bytes, k' ≠ [] ∧ k' ≠ k := by
+    by_cases hk : k = [1]
+    · exact ⟨[2], by simp, by rw [hk]; decide⟩
+    · exact ⟨[1], by simp, fun he => hk he.symm⟩
+  have hadm : p2pAdmit { keyOk := true, hdrSigOk := true, dataSigOk := false } (addrOf k)
+      { header := { proposerAddress := addrOf k }, signature := [1], signer := { address := addrOf k, pubKey := k' } } = true := by
+    simp [p2pAdmit, validateBasicWire, ha, hk'ne]
+  exact hk'k (h _ k _ hadm).1
+
+theorem C03_data_full_fails_any (addrOf : Bytes → Bytes) (k : Bytes)
+    (hl : (addrOf k).length < 2 ^ 32) : ¬ C03_data_full addrOf := by
+  intro h
+  obtain ⟨k', hk'ne, hk'k, hk'len⟩ : ∃ k' : Bytes, k' ≠ [] ∧ k' ≠ k ∧ k'.length = 1 := by
+    by_cases hk : k = [1]
+    · exact ⟨[2], by simp, by rw [hk]; decide, rfl⟩
+    · exact ⟨[1], by simp, fun he => hk he.symm, rfl⟩
+  have hw : ({ data := { metadata := some {}, txs := [[1]] }, signature := [1],
+               signer := { address := addrOf k, pubKey := k' } } : SignedData).WF := by
+    have hs := Signer.encode_length_le { address := addrOf k, pubKey := k' }
+    have h1 : ({ metadata := some {}, txs := [[1]] } : Data).WF := by decide +kernel
+    have h2 : ({ metadata := some {}, txs := [[1]] } : Data).encode.length < 2 ^ 64 := by decide +kernel
+    refine ⟨h1, h2, by simp, ⟨?_, ?_⟩, ?_⟩ <;> simp only at hs ⊢ <;> omega
+  have hacc := classify_encode_data { keyOk := true, hdrSigOk := false, dataSigOk := true } (addrOf k)
+    { data := { metadata := some {}, txs := [[1]] }, signature := [1], signer := { address := addrOf k, pubKey := k' } }
+    hw rfl (by simp) rfl (by simp [validSignedData, hk'ne])
+  exact hk'k (h _ k _ _ hacc).1
+
+example : ¬ C03_header_full keyAddress :=
+  C03_header_full_fails_any keyAddress proposerKey (by decide +kernel) (by decide +kernel)
+example : ¬ C03_p2p_full id := C03_p2p_full_fails_any id [3] (by decide)
+example : ¬ C03_data_full id := C03_data_full_fails_any id [3] (by decide)
+
+/-! ## what does hold at full strength -/
+
+/-! ### (a) an item whose signature does not verify under the key it carries is never accepted
+
+This covers unsigned and garbage-signed copies of genuine items and mutated copies carrying the old signature:
+for all of them the real verification — the oracle — answers `false`. -/
+
+theorem bad_header_signature_never_accepted (o : Oracle) (p bs : Bytes) (sh : SignedHeader)
+    (h : o.hdrSigOk = false) : classify o p bs ≠ .hdrAccepted sh := by
+  intro hc
+  have := (admit_selfconsistent_partial o p bs sh hc).2.2.2
+  rw [h] at this; exact Bool.false_ne_true this
+example : classify { forgeO with hdrSigOk := false, dataSigOk := false } proposer forgedHeader.encode = .ignored := by
+  decide +kernel
+
+theorem bad_data_signature_never_accepted (o : Oracle) (p bs : Bytes) (sd : SignedData)
+    (h : o.dataSigOk = false) : classify o p bs ≠ .dataAccepted sd := by
+  intro hc
+  have := (admit_data_selfconsistent_partial o p bs sd (admit_data_via_classify o p bs sd hc)).2.2.1
+  rw [h] at this; exact Bool.false_ne_true this
+example : classify { forgeO with dataSigOk := false } proposer forgedData.encode = .ignored := by decide +kernel
+
+/-- a header without a signature is never accepted, whatever the oracle says -/
+theorem unsigned_header_never_accepted (o : Oracle) (p bs : Bytes) (sh : SignedHeader)
+    (h : classify o p bs = .hdrAccepted sh) : sh.signature ≠ [] := by
+  obtain ⟨_, hvb, _⟩ := (classify_hdrAccepted_iff o p bs sh).1 h
+  simp [validateBasicWire] at hvb
+  exact hvb.1.1.1.2
+example : classify forgeO proposer ({ forgedHeader with signature := [] } : SignedHeader).encode = .ignored := by
+  decide +kernel
+
+/-- the same on the P2P path -/
+theorem bad_signature_never_admitted_p2p (o : Oracle) (p : Bytes) (sh : SignedHeader)
+    (h : o.hdrSigOk = false ∨ sh.signature = []) : p2pAdmit o p sh = false := by
+  cases hadm : p2pAdmit o p sh with
+  | false => rfl
+  | true =>
+    have := admit_p2p_selfconsistent_partial o p sh hadm
+    rcases h with h | h
+    · rw [h] at this; exact absurd this.2.2.2.2 Bool.false_ne_true
+    · exact absurd h this.2.2.1
+example : p2pAdmit { forgeO with hdrSigOk := false } proposer forgedHeader = false :=
+  bad_signature_never_admitted_p2p _ _ _ (Or.inl rfl)
+
+/-- hence such a blob is neither handed to sync nor marked -/
+theorem unverifiable_blob_not_accepting (o : Oracle) (p b : Bytes) (h1 : o.hdrSigOk = false)
+    (h2 : o.dataSigOk = false) : accepting (classify o p b) = false :=
+  (accepting_eq_false_iff _).2 ⟨fun sh => bad_header_signature_never_accepted o p b sh h1,
+    fun sd => bad_data_signature_never_accepted o p b sd h2⟩
+
+/-! ### (b) a header naming another proposer address is never accepted -/
+
+theorem foreign_proposer_header_never_accepted (o : Oracle) (p bs : Bytes) (sh : SignedHeader)
+    (h : sh.header.proposerAddress ≠ p) : classify o p bs ≠ .hdrAccepted sh :=
+  fun hc => h (admit_selfconsistent_partial o p bs sh hc).1
+
+theorem foreign_proposer_header_never_admitted_p2p (o : Oracle) (p : Bytes) (sh : SignedHeader)
+    (h : sh.header.proposerAddress ≠ p) : p2pAdmit o p sh = false := by
+  cases hadm : p2pAdmit o p sh with
+  | false => rfl
+  | true => exact absurd (admit_p2p_selfconsistent_partial o p sh hadm).1 h
+example : p2pAdmit forgeO [1, 2, 3] forgedHeader = false :=
+  foreign_proposer_header_never_admitted_p2p _ _ _ (by decide +kernel)
+
+/-- a self-consistent, correctly signed header of ANOTHER proposer is consumed as "unexpected sequencer": it is
+not re-tried as data, not handed on, not marked -/
+theorem foreign_proposer_header_consumed (o : Oracle) (p bs : Bytes) (sh : SignedHeader)
+    (hs : headerStage o bs = .ok sh) (hv : validateBasicWire o sh = true) (h : sh.header.proposerAddress ≠ p) :
+    classify o p bs = .hdrUnexpectedSequencer := by
+  have hne : bs.isEmpty = false := by
+    cases bs with
+    | nil => exact absurd hs (headerStage_nil o sh)
+    | cons a l => rfl
+  simp [classify, hne, hs, hv, h]
+example : classify forgeO [1, 2, 3] forgedHeader.encode = .hdrUnexpectedSequencer := by decide +kernel
+
+/-! ### (c) signed data with a foreign signer address, no transactions or no metadata is never accepted -/
+
+theorem malformed_data_never_accepted (o : Oracle) (p bs : Bytes) (sd : SignedData)
+    (h : sd.signer.address ≠ p ∨ sd.data.txs = [] ∨ sd.data.metadata = none) :
+    classify o p bs ≠ .dataAccepted sd := by
+  intro hc
+  have hcd := admit_data_via_classify o p bs sd hc
+  have h1 := admit_data_selfconsistent_partial o p bs sd hcd
+  have h2 := ((classifyData_accepted_iff o p bs sd).1 hcd).2.2.1
+  rcases h with h | h | h
+  · exact h h1.1
+  · exact h1.2.2.2 h
+  · rw [h] at h2; simp at h2
+example : classify forgeO [1, 2, 3] forgedData.encode = .ignored ∧
+    classify forgeO proposer ({ forgedData with data := { forgedData.data with txs := [] } } : SignedData).encode = .ignored ∧
+    classify forgeO proposer ({ forgedData with data := { forgedData.data with metadata := none } } : SignedData).encode = .ignored := by
+  decide +kernel
+
+/-! ### (d) non-interference at the hand-off: material that is not accepted changes nothing -/
+
+/-- **A blob that is not accepted changes nothing**, wherever it sits among the blobs of a DA height: the node
+(marks, caches, cursor, crash flag) and the events handed to sync are those of the list without it. -/
+theorem unaccepted_blob_changes_nothing (p : Bytes) (n : RNode) (da : Nat) (bs₁ bs₂ : List (Bytes × Oracle))
+    (b : Bytes) (o : Oracle) (evs : List Event) (h : accepting (classify o p b) = false) :
+    handleBlobs p n da (bs₁ ++ [(b, o)] ++ bs₂) evs = handleBlobs p n da (bs₁ ++ bs₂) evs :=
+  handleBlobs_drop_unaccepted p n da bs₁ bs₂ (b, o) evs h
+example : handleBlobs proposer {} 3 ([] ++ [([0xff, 0x01], forgeO)] ++ []) [] = handleBlobs proposer {} 3 ([] ++ []) [] :=
+  unaccepted_blob_changes_nothing _ _ _ _ _ _ _ _ (by decide +kernel)
+
+/-- any amount of it, interleaved in any way: the hand-off is that of the accepted blobs alone -/
+theorem only_accepted_blobs_matter (p : Bytes) (n : RNode) (da : Nat) (bs : List (Bytes × Oracle)) (evs : List Event) :
+    handleBlobs p n da bs evs = handleBlobs p n da (bs.filter fun b => accepting (classify b.2 p b.1)) evs :=
+  handleBlobs_filter_accepted p n da bs evs
+
+/-- in particular everything that fails signature verification under the key it carries — whatever its bytes —
+can be deleted from the DA height without changing the node or what sync receives -/
+theorem unverifiable_blob_changes_nothing (p : Bytes) (n : RNode) (da : Nat) (bs₁ bs₂ : List (Bytes × Oracle))
+    (b : Bytes) (o : Oracle) (evs : List Event) (h1 : o.hdrSigOk = false) (h2 : o.dataSigOk = false) :
+    handleBlobs p n da (bs₁ ++ [(b, o)] ++ bs₂) evs = handleBlobs p n da (bs₁ ++ bs₂) evs :=
+  unaccepted_blob_changes_nothing p n da bs₁ bs₂ b o evs (unverifiable_blob_not_accepting o p b h1 h2)
+
+/-- **Junk cannot halt the scan**: whether a DA height is passed, and after how many attempts, depends on the
+fetch outcomes and on the NUMBER of blobs only — not on their bytes, the oracle answers, or the node. (Together
+with `Spec.C09.no_blob_crashes_the_scan` and the totality of the classifier.) -/
+theorem blob_contents_cannot_stall_the_scan (p p' : Bytes) (n n' : RNode) (blobs blobs' : List (Bytes × Oracle))
+    (hl : blobs.length = blobs'.length) (fuel : Nat) (outs : List Fetch) (used : Nat) :
+    (processNext p n blobs fuel outs used).2.2 = (processNext p' n' blobs' fuel outs used).2.2 :=
+  processNext_verdict_length p p' n n' blobs blobs' hl fuel outs used
+example : (processNext proposer {} [([0xff], forgeO)] 10 [.errIds] 0).2.2 = (true, 2) := by decide +kernel
+
+/-! ### (e) the full statements under the binding a repair has to establish -/
+
+/-- the carried key derives the address the signer claims — the comparison `KeyAddress(pubKey) = address` the
+admission test does not make today -/
+def KeyBoundToAddress (addrOf : Bytes → Bytes) (s : Signer) : Prop := addrOf s.pubKey = s.address
+
+/-- the address derivation has no collisions (for `types.KeyAddress`: SHA-256 collision resistance) -/
+def AddrNoCollision (addrOf : Bytes → Bytes) : Prop := ∀ k k', addrOf k = addrOf k' → k = k'
+
+/-- **With the binding, all three full statements hold**: if the admission test additionally established that
+the carried key derives the claimed address, every accepted header (DA and P2P) and every accepted signed-data
+blob would carry the genesis proposer's key and verify under it. -/
+theorem C03_full_under_binding (addrOf : Bytes → Bytes) (hinj : AddrNoCollision addrOf) (o : Oracle)
+    (proposerKey : Bytes) :
+    (∀ bs sh, classify o (addrOf proposerKey) bs = .hdrAccepted sh → KeyBoundToAddress addrOf sh.signer →
+      SignedByProposer o proposerKey sh) ∧
+    (∀ bs sd, classify o (addrOf proposerKey) bs = .dataAccepted sd → KeyBoundToAddress addrOf sd.signer →
+      DataSignedByProposer o proposerKey sd) ∧
+    (∀ sh, p2pAdmit o (addrOf proposerKey) sh = true → KeyBoundToAddress addrOf sh.signer →
+      SignedByProposer o proposerKey sh) := by
+  refine ⟨?_, ?_, ?_⟩
+  · intro bs sh hc hb
+    obtain ⟨h1, h2, _, h4⟩ := admit_selfconsistent_partial o _ bs sh hc
+    exact ⟨hinj _ _ (by rw [hb, ← h2, h1]), h4⟩
+  · intro bs sd hc hb
+    obtain ⟨h1, _, h3, _⟩ := admit_data_selfconsistent_partial o _ bs sd (admit_data_via_classify o _ bs sd hc)
+    exact ⟨hinj _ _ (by rw [hb, h1]), h3⟩
+  · intro sh hc hb
+    obtain ⟨h1, h2, _, _, h5⟩ := admit_p2p_selfconsistent_partial o _ sh hc
+    exact ⟨hinj _ _ (by rw [hb, ← h2, h1]), h5⟩
+/- non-vacuity: with the identity as (collision-free) derivation, a header whose carried key IS bound to the
+claimed address is admitted and is the proposer's; the forged one violates the binding -/
+def boundHeader : SignedHeader :=
+  { header := { proposerAddress := [9] }, signature := [1], signer := { address := [9], pubKey := [9] } }
+example : p2pAdmit forgeO (id [9]) boundHeader = true ∧
+    KeyBoundToAddress id ({ address := [9], pubKey := [9] } : Signer) ∧ AddrNoCollision id ∧
+    ¬ KeyBoundToAddress keyAddress forgedHeader.signer :=
+  ⟨by decide, rfl, fun _ _ h => h, by unfold KeyBoundToAddress; decide +kernel⟩
 
 end Spec.C03
